@@ -140,6 +140,21 @@ func BuildRoot(w *World, root string, lib *OpLib) {
 		// mid-life: positions of both modules, accrued swap fees, a day elapsed, Eden claimed /
 		// committed / vesting, ELYS staked
 		prefix = []string{"perp_open_long_t1", "perp_open_short_t2", "llp_open_t1_x3", "swap_in_p1_usdc_atom_L", "swap_in_p2_elys_usdc_L", "gap_1d", "mc_claim_lp1", "commit_eden_lp1", "vest_eden_lp1", "stake_elys_lp1"}
+	case "R3":
+		// R1 without the leveraged-LP begin-block sweep (FallbackEnabled=false, a validated gov
+		// change): debts of open positions then carry lazily accrued, un-booked interest, which
+		// the every-block sweep of the default configuration otherwise books before any tx runs;
+		// a large loan over 30 days also moves the vault's redemption rate visibly off 1 (≈ 1.005)
+		prefix = []string{"perp_open_long_t1", "perp_open_short_t2", "llp_open_t1_x3", "swap_in_p1_usdc_atom_L", "swap_in_p2_elys_usdc_L", "gap_1d", "mc_claim_lp1", "commit_eden_lp1", "vest_eden_lp1", "stake_elys_lp1", "cfg_llp_fallback_off", "llp_open_t2_x5", "gap_30d"}
+	case "R5":
+		// leveraged-heavy pool: the vault is enlarged, the founder withdraws 90 % of pool 1 and one
+		// position then holds ~60 % of the pool's shares — forced exits of it are large against the
+		// pool's USDC side (the leveragelp AfterExitPool hook can reject them AFTER the exit happened)
+		prefix = []string{"perp_open_long_t1", "perp_open_short_t2", "llp_open_t1_x3", "swap_in_p1_usdc_atom_L", "swap_in_p2_elys_usdc_L", "gap_1d", "mc_claim_lp1", "commit_eden_lp1", "vest_eden_lp1", "stake_elys_lp1", "bond_lp1_XL", "exit_p1_90pct_lp1", "llp_open_t2_x5_big"}
+	case "R4":
+		// R1 with a large loan outstanding for 30 days under the default every-block sweep: the
+		// interest is booked, so the vault's redemption rate sits visibly above 1 (≈ 1.005)
+		prefix = []string{"perp_open_long_t1", "perp_open_short_t2", "llp_open_t1_x3", "swap_in_p1_usdc_atom_L", "swap_in_p2_elys_usdc_L", "gap_1d", "mc_claim_lp1", "commit_eden_lp1", "vest_eden_lp1", "stake_elys_lp1", "llp_open_t2_x5", "gap_30d", "bond_lp1_L"}
 	case "R2":
 		// degraded: pool 1 far off target, vault highly utilised, dust positions
 		prefix = []string{"llp_open_t2_x5", "perp_open_long_t1", "swap_in_p1_usdc_atom_XL", "unbond_lp2_L", "perp_open_short_t2_dust", "gap_1h"}
@@ -157,7 +172,7 @@ func BuildRoot(w *World, root string, lib *OpLib) {
 
 // Variants are configuration changes permitted by validation, applied through the real gov
 // message servers (with the message's ValidateBasic when it has one) at fixture time.
-var AllVariants = []string{"", "mc_lps1", "mc_lps0_stakers1", "mc_stakers_tiny", "es_provider1", "es_provider0", "oracle_min", "vest_blocks0", "perp_extreme", "ss_rates_equal"}
+var AllVariants = []string{"", "llp_fallback_off", "mc_lps1", "mc_lps0_stakers1", "mc_stakers_tiny", "es_provider1", "es_provider0", "oracle_min", "vest_blocks0", "perp_extreme", "ss_rates_equal"}
 
 type validator interface{ ValidateBasic() error }
 
@@ -210,6 +225,17 @@ func variantGov(w *World, variant string) func(ctx sdk.Context) error {
 				return err
 			}
 			_, err := eskeeper.NewMsgServerImpl(*app.EstakingKeeper).UpdateParams(ctx, m)
+			return err
+		}
+	case "llp_fallback_off":
+		return func(ctx sdk.Context) error {
+			p := app.LeveragelpKeeper.GetParams(ctx)
+			p.FallbackEnabled = false
+			m := &llptypes.MsgUpdateParams{Authority: gov, Params: &p}
+			if err := vb(m); err != nil {
+				return err
+			}
+			_, err := llpkeeper.NewMsgServerImpl(*app.LeveragelpKeeper).UpdateParams(ctx, m)
 			return err
 		}
 	case "oracle_min":
